@@ -88,7 +88,10 @@ def serial_bus_paths(prog, log_on):
 
 def run_c16(chk, prog):
     chk.notes.append("A2: every path of <SerialSignBus<P> as SignBus>::process_message is enumerated with Frame::write / Frame::read / the two From impls kept as "
-                     "protocol-level units (each analysed on its own: C15, C01, C04/C05); rules over the ordered port effects of each path.")
+                     "protocol-level units (each analysed on its own: C15, C01, C04/C05); rules over the ordered port effects of each path. The units Frame::write and "
+                     "Frame::read ('exactly that frame's encoding with CRLF', 'exactly one line', errors surfaced) are C15's subject; its rule set is run here too as C16.io(..).")
+    n = chk.include("C16.io", run_c15, prog)
+    chk.floor("C16.io", "obligations on Frame::write / Frame::read", n, 15)
     kinds_read = set()
     kinds_noread = set()
     for log_on in (False, True):
@@ -527,6 +530,9 @@ def run_c17(chk, prog):
     chk.notes.append("Decides two clauses only (DESIGN.md 4 C17): (a) the bridge shape of Odk::process_message by A2 effect-order rules; (b) agreement of the serial bus's read "
                      "classification, the virtual sign's reply table and the controller's expectations on which message kinds are answered. End-to-end state equality is the "
                      "composition of C01, C04, C05, C15, C16 with (a),(b) (lemma L5) and is not re-derived.")
+    # the byte-stream leg of the serial path (both directions, at the bus and at the bridge) is Frame::read / Frame::write
+    n = chk.include("C17.io", run_c15, prog)
+    chk.floor("C17.io", "obligations on Frame::write / Frame::read (the byte-stream leg)", n, 15)
     units = a2.Units(prog)
     models = Models(prog)
     fn = one(prog.inherent(ODK, "process_message"), "Odk::process_message")
